@@ -89,7 +89,13 @@ enum Step {
 
 pub enum Signal {
     Deadlock,
+    /// the same directory was queued for scanning more than `RESCAN_LIMIT` times in one run
+    Livelock,
 }
+
+/// A correct run scans a directory at most a handful of times (once per spelling among the
+/// inputs); beyond this bound the run is rescanning in a loop and can never finish.
+pub const RESCAN_LIMIT: u32 = 64;
 
 struct State {
     epoch: u64,
@@ -102,6 +108,7 @@ struct State {
     received: u64,
     run_ended: bool,
     deadlock: bool,
+    livelock: bool,
     rng: u64,
     choice_log: Vec<(u32, u32)>,
     choice_points: u32,
@@ -171,6 +178,7 @@ impl Ctl {
                 received: 0,
                 run_ended: true,
                 deadlock: false,
+                livelock: false,
                 rng: 1,
                 choice_log: vec![],
                 choice_points: 0,
@@ -206,6 +214,7 @@ impl Ctl {
         s.received = 0;
         s.run_ended = false;
         s.deadlock = false;
+        s.livelock = false;
         s.choice_log.clear();
         s.choice_points = 0;
         s.diverged = 0;
@@ -459,6 +468,15 @@ impl Controller for Ctl {
         s.final_poll = None;
         let id = (s.epoch << 32) | s.tasks.len() as u64;
         let occ = s.tasks.iter().filter(|t| t.kind == kind && t.path == path).count() as u32;
+        if kind == TaskKind::ScanDir && occ >= RESCAN_LIMIT && !s.run_ended {
+            s.livelock = true;
+            Self::ev(&mut s, Event::Deadlock { done: 0, total: occ as usize });
+            if let Some(sig) = &s.signal {
+                let _ = sig.send(Signal::Livelock);
+            }
+            drop(s);
+            Self::park_forever(); // the coordinator stops here; the harness abandons the run
+        }
         s.tasks.push(TaskInfo { kind, path: path.to_path_buf(), occ, phase: Phase::Queued, release_begin: false, release_end: false });
         Self::ev(&mut s, Event::Spawn { id: id & 0xffff_ffff, kind, path: path.to_path_buf() });
         self.cv.notify_all();
